@@ -74,7 +74,7 @@ def cases(tier, seed):
                 i = len(cs)
                 cs.append({'gen': 'reshape_t', 'N': N, 'target': tgt, 'eps': EPS[i % 6], 'vals': ['gauss', 'decay', 'int', 'graded', 'tiny', 'decay', 'huge'][i % 7], 'dtype': DTS[(i // 4) % 4]})
     # splits that create a bond of exact rank > 100 (a rank cap that is not the caller's would show)
-    for (N, tgt) in ([[16384], [128, 128]], [[2, 14400], [2, 120, 120]]) + ([[[3, 12100, 2], [3, 110, 110, 2]]] if T else []):
+    for (N, tgt) in [([16384], [128, 128]), ([2, 14400], [2, 120, 120])] + ([([3, 12100, 2], [3, 110, 110, 2])] if T else []):
         cs.append({'gen': 'reshape_t', 'N': N, 'target': tgt, 'eps': None, 'vals': 'gauss', 'dtype': 'f64', 'fullrank': True})
     # reshape operators
     for i in range(300 if not T else 6000):
